@@ -179,6 +179,20 @@ def r13_1(chk):
         else:
             reach = bool(has) or any(isinstance(c, ast.Call) and gd.resolve_self_call(c, ci) for c in ast.walk(fn))
             chk.ok("R13.1", key(m, q, "mutations guarded"), m.loc(fn), f"{len(has)} direct mutation site(s), all dominated by a mode check", nontrivial=reach)
+    # guards that test a *parameter* named mode are only as good as what the callers pass: the normalised Mode
+    for name, fn in ci.methods.items():
+        if not isinstance(fn, ast.FunctionDef):
+            continue
+        for c in walk_no_nested(fn):
+            if isinstance(c, ast.Call) and isinstance(c.func, ast.Attribute) and norm(c.func.value) == "self" and isinstance(ci.methods.get(c.func.attr), ast.FunctionDef):
+                callee = ci.methods[c.func.attr]
+                cps = [p for p in params_of(callee) if p != "self"]
+                if "mode" not in cps or not any(isinstance(i, ast.If) and norm(i.test) == "mode is READONLY" and T._always_exits(i.body) for i in walk_no_nested(callee)):
+                    continue
+                idx = cps.index("mode")
+                arg = c.args[idx] if idx < len(c.args) else next((kw.value for kw in c.keywords if kw.arg == "mode"), None)
+                good = arg is not None and (norm(arg) in ("self._mode", "self.mode") or (isinstance(arg, ast.Call) and call_name(arg) == "Mode"))
+                chk.decide(good, "R13.1", key(m, f"DataStoreDirectory.{name}", f"{c.func.attr}() given the normalised mode"), m.loc(c), f"passes {norm(arg) if arg is not None else None}", f"`{norm(c)}` passes the caller's raw mode argument to a helper that tests `mode is READONLY`: for mode='r' (a string) the identity test is false and a read-only store creates its directories")
     chk.floor("R13.1", 8, "public methods of DataStoreDirectory")
     # sqlite: typed handle
     s = chk.repo.module(SQ)
